@@ -620,44 +620,48 @@ func buildReplay(vc *VC, o *Obl, prop string) *ReplayFile {
 	if strings.HasPrefix(o.Solver, "z3-4.8") {
 		bin = "z3"
 	}
-	sess, err := startSession(bin, 30000)
-	if err != nil {
-		rf.Note = "cannot start solver session: " + err.Error()
-		return rf
-	}
-	defer sess.close()
-	rc := &replayCtx{vc: vc, sess: sess, pkg: vc.fn.Pkg.Pkg, refs: map[string]string{}, imports: map[string]string{}, budget: 3000}
-	// declare heap constants that the walk may need before sending the script: pre-walk types
-	rc.predeclare()
-	script := vc.singleScript(o, nil)
-	script = strings.Replace(script, "(check-sat)\n", "", 1)
-	sess.send(script)
-	// prefer small models: bound the lengths of input slices/strings, relaxing step by step
-	sat := false
+	// prefer small models: bound the lengths of input slices/strings, relaxing step by step. Each attempt is a
+	// fresh, non-incremental solver run (incremental mode is much weaker on quantified problems).
+	var sess *session
+	var rc *replayCtx
 	last := ""
 	for _, bound := range []int64{4, 40, 400, -1} {
-		sess.send("(push 1)")
+		tmo := 5000
+		if bound < 0 {
+			tmo = 30000
+		}
+		s2, err := startSession(bin, tmo)
+		if err != nil {
+			rf.Note = "cannot start solver session: " + err.Error()
+			return rf
+		}
+		rc = &replayCtx{vc: vc, sess: s2, pkg: vc.fn.Pkg.Pkg, refs: map[string]string{}, imports: map[string]string{}, budget: 3000}
+		rc.predeclare()
+		script := vc.singleScript(o, nil)
+		script = strings.Replace(script, "(check-sat)\n", "", 1)
+		s2.send(script)
 		if bound > 0 {
 			for _, c := range rc.sizeBounds(bound) {
-				sess.send("(assert " + c.String() + ")")
+				s2.send("(assert " + c.String() + ")")
 			}
 		}
-		sess.send("(check-sat)")
-		line, ok := sess.readLine(40 * time.Second)
+		s2.send("(check-sat)")
+		line, ok := s2.readLine(time.Duration(tmo+10000) * time.Millisecond)
 		for ok && line != "sat" && line != "unsat" && line != "unknown" && line != "timeout" && !strings.HasPrefix(line, "(error") {
-			line, ok = sess.readLine(40 * time.Second)
+			line, ok = s2.readLine(time.Duration(tmo+10000) * time.Millisecond)
 		}
 		last = line
 		if ok && line == "sat" {
-			sat = true
+			sess = s2
 			break
 		}
-		sess.send("(pop 1)")
+		s2.close()
 	}
-	if !sat {
+	if sess == nil {
 		rf.Note = "model session did not reproduce sat: " + last
 		return rf
 	}
+	defer sess.close()
 	// inputs
 	var argExprs []string
 	fn := vc.fn
